@@ -15,7 +15,7 @@ from harness import common, vecgen
 LEVEL = {"partial": ["floating-point rounding: results are compared to the exact rational value within 1e-9 relative tolerance (std: squared)",
                      "NumPy's reductions themselves (np.mean, np.median, np.quantile, ...) are the assumed semantics; helpers on string columns are checked by the oracle only"]}
 ASSUMPTIONS = ["np.mean/median/var/std/quantile/sum/amin/amax/all/any as documented; statistics.mode returns the first encountered mode"]
-RULE = ("16 helpers x {float, int, bool, date} columns drawn from exactly representable pools with NaN/NaT, x drop_na in {default, True, False}, "
+RULE = ("16 helpers x {float, int, bool, date, timedelta} columns drawn from exactly representable pools with NaN/NaT, x drop_na in {default, True, False}, "
         "ddof in {0,1,2}, index in -3..3, q in {0, 1/4, 1/2, 9/10, 1}; vector form on vectors of 0..8 elements and group-wise form on frames "
         "of 0..12 rows with 1..4 groups incl. singleton and all-missing groups (USE_NUMBA off); non-trivial = >=2 elements with a tie or a "
         "missing value (vector) / >=2 groups (group-wise); thorough adds all groups of <=4 values over a 4-value pool")
@@ -27,6 +27,7 @@ POOLS = {
     "int": [0, 1, 2, 3, -1, 5, 7],
     "bool": [True, False],
     "date": [None, 0, 1, 18000, 19000, -5],
+    "timedelta": [None, 0, 1, 2, 86400, -5, 259200],
 }
 QS = ["0/1", "1/4", "1/2", "9/10", "1/1"]
 
@@ -47,22 +48,29 @@ def gen_args(rng, helper):
 def gen_vals(rng, kind, n):
     pool = POOLS[kind]
     sub = rng.sample(pool, min(rng.choice([1, 2, 3, 3, 4]), len(pool)))
-    if rng.random() < 0.1 and kind in ("float", "date"):
+    if rng.random() < 0.1 and kind in ("float", "date", "timedelta"):
         return [pool[0]] * n
     return [rng.choice(sub) for _ in range(n)]
 
 
 def gen_case(rng, tier, form=None):
     helper = rng.choice(HELPERS)
-    kind = rng.choice(["float", "float", "int", "bool"] if helper in NUMERIC_ONLY else ["float", "int", "bool", "date"])
+    kind = rng.choice(["float", "float", "int", "bool"] if helper in NUMERIC_ONLY else ["float", "int", "bool", "date", "timedelta"])
     form = form or rng.choice(["vector", "group"])
     args = gen_args(rng, helper)
     if form == "vector":
         n = rng.choice([0, 1, 2, 3, 4, 5, 8])
         return {"op": "vector", "helper": helper, "kind": kind, "args": args, "vals": gen_vals(rng, kind, n)}
     n = rng.choice([0, 1, 2, 4, 6, 9, 12])
+    case = {"op": "group", "helper": helper, "kind": kind, "args": args}
+    if rng.random() < 0.2:
+        # a string group column and more rows than the size up to which NumPy's default (unstable) sort happens to
+        # be stable: the group's elements must still reach the helper in their original order
+        n = rng.choice([20, 30, 40])
+        case["gstr"] = True
     g = [rng.randint(0, rng.choice([0, 1, 2, 3])) for _ in range(n)]
-    return {"op": "group", "helper": helper, "kind": kind, "args": args, "vals": gen_vals(rng, kind, n), "g": g}
+    case.update({"vals": gen_vals(rng, kind, n), "g": g})
+    return case
 
 
 def gen_cases(ctx):
@@ -117,6 +125,8 @@ def canon_result(x):
         return "missing" if x != x else x
     if isinstance(x, (int, np.integer)):
         return int(x)
+    if hasattr(x, "total_seconds"):   # datetime.timedelta from .item()
+        return int(x.total_seconds())
     if hasattr(x, "toordinal"):   # datetime.date from .item()
         return int(np.datetime64(x, "D").astype("int64"))
     return repr(x)
@@ -134,10 +144,13 @@ def impl(case, use_numba=False):
                 v = vecgen.make_vector(kind, case["vals"])
                 res["out"] = canon_result(f(v, *pos, **kw))
             else:
-                df = di.DataFrame(g=np.array(case["g"], dtype=np.int64), x=vecgen.make_array(kind, case["vals"]))
+                if case.get("gstr"):
+                    df = di.DataFrame(g=np.array([f"g{v}" for v in case["g"]], dtype=di.dtypes.string), x=vecgen.make_array(kind, case["vals"]))
+                else:
+                    df = di.DataFrame(g=np.array(case["g"], dtype=np.int64), x=vecgen.make_array(kind, case["vals"]))
                 stat = df.group_by("g").aggregate(y=f("x", *pos, **kw) if helper != "count" or True else f())
                 res["out"] = [canon_result(x) for x in stat.y]
-                res["groups"] = [int(x) for x in stat.g]
+                res["groups"] = [int(str(x)[1:]) if case.get("gstr") else int(x) for x in stat.g]
                 res["dtype"] = str(stat.y.dtype)
     except Exception as e:
         res["err"] = f"{type(e).__name__}: {e}"
@@ -172,7 +185,7 @@ def model_requests(case, obs):
     if helper in ("std", "var"):
         a["ddof"] = args["ddof"]
     if helper == "count_unique":
-        a["naDistinct"] = kind in ("float", "date")
+        a["naDistinct"] = kind in ("float", "date", "timedelta")
     if case["op"] == "vector":
         a["xs"] = [rat(kind, v) for v in case["vals"]]
         return [("agg_vector", a)]
